@@ -249,6 +249,16 @@ impl<C: Fc> Built<C> {
 /// Number of distinct `Const`/`Public` expressions the connect class of `a` would contain
 /// if `a` and `b` were connected (uses the read-only `verif-hooks` view of the builder).
 pub fn creators_if_connected<C: Fc>(b: &CircuitBuilder<C::EF>, x: ExprId, y: ExprId) -> usize {
+    class_profile_if_connected::<C>(b, x, y).0
+}
+
+/// `(Const/Public expressions, non-primitive output expressions)` in the connect class `x`
+/// would belong to after `connect(x, y)`.
+pub fn class_profile_if_connected<C: Fc>(
+    b: &CircuitBuilder<C::EF>,
+    x: ExprId,
+    y: ExprId,
+) -> (usize, usize) {
     use p3_circuit::Expr;
     let graph = b.verif_graph();
     let mut parent: std::collections::HashMap<u32, u32> = std::collections::HashMap::new();
@@ -274,11 +284,57 @@ pub fn creators_if_connected<C: Fc>(b: &CircuitBuilder<C::EF>, x: ExprId, y: Exp
     let root = find(&mut parent, x.0);
     members.sort_unstable();
     members.dedup();
-    members
-        .into_iter()
-        .filter(|&m| find(&mut parent, m) == root)
-        .filter(|&m| matches!(graph.get_expr(ExprId(m)), Expr::Const(_) | Expr::Public(_)))
-        .count()
+    let mut creators = 0;
+    let mut npo_outs = 0;
+    for m in members {
+        if find(&mut parent, m) != root {
+            continue;
+        }
+        match graph.get_expr(ExprId(m)) {
+            Expr::Const(_) | Expr::Public(_) => creators += 1,
+            Expr::NonPrimitiveOutput { call, .. } => {
+                // hint outputs are not table rows; only table-backed outputs count
+                if let Expr::NonPrimitiveCall { op_id, .. } = graph.get_expr(*call) {
+                    let is_hint = b
+                        .verif_npo_calls()
+                        .iter()
+                        .any(|(id, ty, _, _)| id == op_id && *ty == p3_circuit::NpoTypeId::unconstrained());
+                    if !is_hint {
+                        npo_outs += 1;
+                    }
+                }
+            }
+            _ => {}
+        }
+    }
+    (creators, npo_outs)
+}
+
+/// Would `connect(x, y)` create a connect class of a listed known-finding shape?  Returns
+/// `true` when the statement has to be skipped (exclusion on); otherwise records the shape
+/// as a feature so that failures can be attributed.
+fn known_class_if_connected<C: Fc>(o: &mut Built<C>, x: ExprId, y: ExprId, excl: Excl) -> bool {
+    if x == y {
+        return false;
+    }
+    let (creators, npo_outs) = class_profile_if_connected::<C>(&o.builder, x, y);
+    if creators >= 2 {
+        // known finding (C09/C10): two Const/Public creators in one connect class
+        if excl.two_creators {
+            o.excluded.push("two-creators");
+            return true;
+        }
+        o.features.insert("two-creators".into());
+    }
+    if npo_outs >= 2 {
+        // known finding (C09/C10): two non-primitive rows writing one slot
+        if excl.two_creators {
+            o.excluded.push("npo-duplicate-output");
+            return true;
+        }
+        o.features.insert("npo-duplicate-output".into());
+    }
+    false
 }
 
 fn is_base<C: Fc>(x: &C::EF) -> bool {
@@ -540,12 +596,8 @@ fn step<C: Fc>(o: &mut Built<C>, si: usize, st: &Stmt, excl: Excl) {
             if excl.sat_only && a.val != C::EF::ZERO {
                 return;
             }
-            if creators_if_connected::<C>(&o.builder, a.expr, ExprId::ZERO) >= 2 {
-                if excl.two_creators {
-                    o.excluded.push("two-creators");
-                    return;
-                }
-                o.features.insert("two-creators".into());
+            if known_class_if_connected::<C>(o, a.expr, ExprId::ZERO, excl) {
+                return;
             }
             o.builder.assert_zero(a.expr);
             o.asserts.push(Assertion {
@@ -561,13 +613,8 @@ fn step<C: Fc>(o: &mut Built<C>, si: usize, st: &Stmt, excl: Excl) {
             if excl.sat_only && a.val != c.val {
                 return;
             }
-            if creators_if_connected::<C>(&o.builder, a.expr, c.expr) >= 2 {
-                // known finding (C09/C10): two Const/Public creators in one connect class
-                if excl.two_creators {
-                    o.excluded.push("two-creators");
-                    return;
-                }
-                o.features.insert("two-creators".into());
+            if known_class_if_connected::<C>(o, a.expr, c.expr, excl) {
+                return;
             }
             o.builder.connect(a.expr, c.expr);
             o.asserts.push(Assertion {
@@ -596,15 +643,11 @@ fn step<C: Fc>(o: &mut Built<C>, si: usize, st: &Stmt, excl: Excl) {
                 }
                 CopyVia::Const => (o.builder.define_const(val), NK::Const),
             };
-            if a.expr != e && creators_if_connected::<C>(&o.builder, a.expr, e) >= 2 {
-                if excl.two_creators {
-                    // the new input/constant stays free; no connect is issued
-                    o.excluded.push("two-creators");
-                    o.cur_deps.clear();
-                    push(o, e, val, kind, si, false);
-                    return;
-                }
-                o.features.insert("two-creators".into());
+            if a.expr != e && known_class_if_connected::<C>(o, a.expr, e, excl) {
+                // the new input/constant stays free; no connect is issued
+                o.cur_deps.clear();
+                push(o, e, val, kind, si, false);
+                return;
             }
             o.builder.connect(a.expr, e);
             o.asserts.push(Assertion {
